@@ -73,9 +73,12 @@ class Exec:
                     async with cm as st:
                         async for cmd in w["cmd"][1]:
                             w["result"] = "blocked"
-                            ev = await st.__anext__()
-                            record(ev)
-                            w["result"] = ("got", ev.n)
+                            with anyio.CancelScope() as w["wait_scope"]:
+                                ev = await st.__anext__()
+                                record(ev)
+                                w["result"] = ("got", ev.n)
+                            if w["wait_scope"].cancelled_caught:
+                                w["result"] = "abandoned"        # gave up waiting, still inside the stream block
 
             async def run_wait():
                 with w["scope"]:
@@ -109,6 +112,10 @@ class Exec:
             w["cmd"][0].send_nowait("consume")
             await vclock.quiescent()
             return w["result"]
+        if a == "Abandon":
+            self.workers[obs["s"]]["wait_scope"].cancel()
+            await vclock.quiescent()
+            return None
         if a == "Leave":
             self.workers[obs["s"]]["scope"].cancel()
             await vclock.quiescent()
@@ -275,7 +282,7 @@ def check(prop: str, tier: str, seed: int) -> core.Report:
     rep.add_tlc(res, "MC_Signals_props (3 channels, 2 subscribers, 3 events, queue sizes 0-2): InOrder, OwnChannelsOnly, QueueOwnChannels, QueueBounded, Registered, WaitOne, Isolation")
     cfg = open(tlc.SPECS / "MC_Signals.cfg").read()
     if tier == "thorough":
-        cfg = cfg.replace("MC_ChanSeqsQuick", "MC_ChanSeqs").replace("MaxEv = 2", "MaxEv = 3")
+        cfg = cfg.replace("MC_ChanSeqsQuick", "MC_ChanSeqs").replace("MaxEv = 2", "MaxEv = 3").replace("AbandonSubs = {1}", "AbandonSubs = {1, 2}")
     dump = tlc.run("MC_Signals", cfg_text=cfg, workers=1, heap="12g", timeout=6000, check=False)
     if dump.error:
         raise core.MachineryError(f"MC_Signals dump: {dump.error}\n{dump.out[-1500:]}")
@@ -299,7 +306,7 @@ def check(prop: str, tier: str, seed: int) -> core.Report:
     rep.extra["differences_attributed_to_other_properties"] = other
     k = g.order[min(len(g.order) - 1, 500)]
     rep.samples = [{"state": g.states[k]["enc"], "transitions_out": [e[0] for e in g.states[k]["edges"][:3]]}]
-    rep.rule = ("every transition of the bounded Signals graph (subscribe / wait_event / dispatch incl. wrong event class / consume / leave over 3 channels "
+    rep.rule = ("every transition of the bounded Signals graph (subscribe / wait_event / dispatch incl. wrong event class / consume / give up waiting / leave over 3 channels "
                 "of 2 instances, 2 subscribers, filters, queue sizes 0-1) executed once against real signals with one task per subscriber, on asyncio and "
                 "trio (partitions alternate); after each step the delivered sequences of all subscribers (event number, channel from source/topic), consume "
                 "results, dispatch results and SignalQueueFull counts are compared; distinct_nontrivial = distinct transitions examined")
